@@ -48,6 +48,8 @@ def dfsRec (e : Engine) : Nat → Nat → (List Nat × List Nat) → Option (Lis
           match e.names.lookup req with
           | none => some st
           | some dep =>
+            -- a dependency already listed is not walked again
+            if st.2.contains dep then some st else
             match dfsRec e f dep st with
             | none => none
             | some (dfs, mark) =>
